@@ -192,7 +192,7 @@ Definition seg_arclen_vc (s : PathSeg T) (accuracy : T) : T * Z :=
 Definition seg_arclen (s : PathSeg T) (accuracy : T) : T := fst (seg_arclen_vc s accuracy).
 
 (** ** solve_itp with a stateful closure: [f st x = (st', f x)].
-    Result: (root, final state, iterations); [None] = fuel exhausted or [1u64 << nmax] overflows *)
+    Result: (root, final state, loop entries = ticks of the work counter); [None] = fuel exhausted *)
 Section ITP.
 Variable St : Type.
 Variable f : St -> T -> St * T.
@@ -203,6 +203,11 @@ Fixpoint itp_loop_st (fuel : nat) (epsilon k1 : T) (st : St) (iters : Z) (a b ya
     match fuel with
     | O => None
     | S fuel' =>
+        let x1_2 := fhalf * (a + b) in
+        (* repair commit 75101ed: leave the loop when the midpoint is not strictly inside the bracket
+           (adjacent floats); the work counter has already been ticked for this entry *)
+        if (x1_2 <=? a) || (x1_2 >=? b) then Some (fhalf * (a + b), st, (iters + 1)%Z)
+        else
         let xitp := itp_point a b k1 ya yb scaled_epsilon in
         let (st', yitp) := f st xitp in
         if yitp >? f0 then
@@ -213,12 +218,12 @@ Fixpoint itp_loop_st (fuel : nat) (epsilon k1 : T) (st : St) (iters : Z) (a b ya
     end
   else Some (fhalf * (a + b), st, iters).
 
+(* nmax = n0.saturating_add(n1_2); scaled_epsilon = epsilon * 2^min(nmax, 1023) (repair commit 75101ed;
+   before it [(1u64 << nmax) as f64], which overflows for nmax >= 64).  [None] = fuel exhausted. *)
 Definition solve_itp_st (fuel : nat) (st : St) (a b epsilon : T) (n0 : Z) (k1 ya yb : T) : option (T * St * Z) :=
-  let nmax := (n0 + itp_n1_2 a b epsilon)%Z in
-  if (64 <=? nmax)%Z then None
-  else
-    let scaled_epsilon := epsilon * fpowi f2 nmax in
-    itp_loop_st fuel epsilon k1 st 0%Z a b ya yb scaled_epsilon.
+  let nmax := Z.min (n0 + itp_n1_2 a b epsilon) (2 ^ 64 - 1) in
+  let scaled_epsilon := epsilon * fpowi f2 (Z.min nmax 1023) in
+  itp_loop_st fuel epsilon k1 st 0%Z a b ya yb scaled_epsilon.
 End ITP.
 
 (** ** ParamCurveArclen::inv_arclen (provided method), for a PathSeg-level curve *)
